@@ -677,6 +677,13 @@ def main():
     print('[%s] tier=%s obligations=%d holds=%d violation=%d known=%d unconfirmed=%d undecided=%d broken=%d wall=%.0fs' % (
         pid, a.tier, n, h, len(viol), len(knownhits), sum(r['verdict'] == 'UNCONFIRMED' for r in results),
         sum(r['verdict'] == 'UNDECIDED' for r in results), len(broken), time.time() - t0))
+    # CBMC leaves the CNF file of an --external-sat-solver run behind when a raced back end is killed
+    import glob
+    for f in glob.glob('/tmp/external-sat*.cnf'):
+        m = re.match(r'.*external-sat(\d+)\.', f)
+        if m and not os.path.exists('/proc/' + m.group(1)):
+            try: os.unlink(f)
+            except OSError: pass
     if viol: return 1
     if broken: return 2
     return 0
